@@ -321,9 +321,8 @@ def SubIdx.remove (s : SubIdx) (v : Str) (id : Nat) : SubIdx :=
   match lookup v s.specific with
   | none => s
   | some ids =>
-    let ids' := ids.filter (· ≠ id)
-    if ids'.isEmpty then { s with specific := erase v s.specific }
-    else { s with specific := insert v ids' s.specific }
+    if (ids.filter (· ≠ id)).isEmpty then { s with specific := erase v s.specific }
+    else { s with specific := insert v (ids.filter (· ≠ id)) s.specific }
 
 /-- `valuesSubIndex.AddWildcard` / `RemoveWildcard`. -/
 def SubIdx.addWildcard (s : SubIdx) (id : Nat) : SubIdx := { s with wildcard := addId id s.wildcard }
